@@ -70,8 +70,9 @@ def spy(gate, a, pulse_desc, seed):
             orig = sub.construct
 
             def wrapper(*args, _orig=orig, _attr=attr):
+                before = np.random.get_state()
                 r = _orig(*args)
-                calls.append({"attr": _attr, "args": [float(x) for x in args], "result": np.array(r)})
+                calls.append({"attr": _attr, "args": [float(x) for x in args], "result": np.array(r), "rng_before": before})
                 return r
             sub.construct = wrapper
             restore.append((sub, orig))
@@ -123,6 +124,26 @@ def oracle(gate, a, pulse_desc, seed):
         return [f"raised {type(e).__name__}: {e}"]
     rec = {"c": (a["pc"], a["T1c"], a["T2c"]), "t": (a["pt"], a["T1t"], a["T2t"])}
     bad, owner = [], {}
+    # every constituent is a pulse OF THIS GATE SET: sampled from the same generator state with the same arguments, the elementary
+    # gate of a gate set on the same pulse gives the same matrix (so the composite's noise is that of the pulse sequence on its pulse)
+    prim = {"cr_c": "CR", "single_qubit_gate_c": "single_qubit_gate", "x_c": "X", "sx_c": "SX", "relaxation_c": "relaxation"}
+    try:
+        from quantum_gates._gates.gates import Gates
+        ref = Gates(gc.build_pulse(pulse_desc))
+        keep = np.random.get_state()
+        for c in calls:
+            if c["attr"] in prim and "rng_before" in c:
+                np.random.set_state(c["rng_before"])
+                with np.errstate(all="ignore"):
+                    R = np.array(getattr(ref, prim[c["attr"]])(*c["args"]), dtype=complex)
+                got = np.array(c["result"], dtype=complex)
+                if R.shape == got.shape and np.isfinite(R).all() and not float(np.abs(R - got).max()) <= 1e-12:
+                    bad.append(f"the {c['attr']} constituent with arguments {tuple(c['args'])} is not the {prim[c['attr']]} pulse of a gate set on the same pulse "
+                               f"{pulse_desc} (same generator state): it differs by {float(np.abs(R - got).max()):.3e}")
+                    break
+        np.random.set_state(keep)
+    except Exception as e:                       # noqa  (a gate set without these primitives: nothing to compare)
+        pass
     for k, c in enumerate(calls):
         if c["attr"] in ("x_c", "sx_c", "single_qubit_gate_c"):
             psi = c["args"][-4]
